@@ -15,6 +15,13 @@ def fresh_class(nattr, tag):
     return MetaThreadSafeAttributes("K%s" % tag, (), ns)
 
 
+def fresh_pair(tag):
+    """a base class with attribute a and a subclass that adds b (its _attributes names only b: a is inherited)"""
+    K = MetaThreadSafeAttributes("B%s" % tag, (), {"_attributes": ["a"]})
+    K2 = MetaThreadSafeAttributes("S%s" % tag, (K,), {"_attributes": ["b"]})
+    return K, K2
+
+
 def ops_for(ninst, nattr):
     ops = [("new",), ("drop",)]
     for i in range(ninst):
@@ -27,12 +34,20 @@ def ops_for(ninst, nattr):
 
 def run_seq(seq, nattr, tag):
     """returns (violation or None, canonical model state)"""
-    K = fresh_class(nattr, tag)
+    if nattr == 3:          # inheritance shape: instances of a base class (a) and of its subclass (a, b)
+        K, K2 = fresh_pair(tag)
+        nattr_base = 1
+    else:
+        K, K2 = fresh_class(nattr, tag), None
+        nattr_base = nattr
     objs, model = [], []
     for k, op in enumerate(seq):
         if op[0] == "new":
             objs.append(K())
-            model.append({a: 0 for a in ["a", "b"][:nattr]})
+            model.append({a: 0 for a in ["a", "b"][:nattr_base]})
+        elif op[0] == "new_sub":
+            objs.append(K2())
+            model.append({"a": 0, "b": 0})
         elif op[0] == "drop":
             # the last instance dies (and with it a crowd of short-lived ones that were assigned values): instances
             # created afterwards - very likely at the same addresses - must start from the default again
@@ -42,19 +57,19 @@ def run_seq(seq, nattr, tag):
             model.pop()
             crowd = [K() for _ in range(CROWD)]
             for q, o in enumerate(crowd):
-                for a in ["a", "b"][:nattr]:
+                for a in ["a", "b"][:nattr_base]:
                     setattr(o, a, 1000 + q)
             del crowd, o
             gc.collect()
             fresh = [K() for _ in range(CROWD)]
-            bad = [(q, a, getattr(o, a)) for q, o in enumerate(fresh) for a in ["a", "b"][:nattr] if getattr(o, a) != 0]
+            bad = [(q, a, getattr(o, a)) for q, o in enumerate(fresh) for a in ["a", "b"][:nattr_base] if getattr(o, a) != 0]
             del fresh
             if bad:
                 return ("new-instance-not-0/after-drop", "after %r, of %d instances created after %d assigned ones had died, %d read a stale "
                         "value (first: instance %d %s=%r)" % (seq[:k + 1], CROWD, CROWD, len(bad), bad[0][0], bad[0][1], bad[0][2])), None
         else:
             i = op[1]
-            if i >= len(objs):
+            if i >= len(objs) or op[2] not in model[i]:
                 return "skip", None
             if op[0] == "set":
                 setattr(objs[i], op[2], op[3])
@@ -80,8 +95,8 @@ def run(tier):
     states = 0
     samples = []
     tag = 0
-    for nattr in (1, 2):
-        ops = ops_for(3, nattr)
+    for nattr in (1, 2, 3):     # 3 = the inheritance shape
+        ops = ops_for(3, 2 if nattr == 3 else nattr) + ([("new_sub",)] if nattr == 3 else [])
         seen = set()
         frontier = [[("new",)]]
         for d in range(1, depth + 1):
@@ -104,7 +119,7 @@ def run(tier):
                     samples.append({"ops": [list(o) for o in seq], "model": [dict(m) for m in state]})
                 if d < depth and len(state) <= 3:
                     for op in ops:
-                        if op[0] == "new" and len(state) >= 3:
+                        if op[0] in ("new", "new_sub") and len(state) >= 3:
                             continue
                         nxt.append(seq + [op])
             frontier = nxt
@@ -112,7 +127,7 @@ def run(tier):
     res.coverage = {"states": states, "transitions": n, "traces_validated_against_impl": n, "evaluations": n,
                     "distinct_nontrivial": states,
                     "rule": "BFS over sequences (depth <= %d) of new-instance / drop-instance (+ a crowd of 24 assigned instances dies, 24 fresh ones must read the default) / set(instance, attr, value) / read(instance, attr) on a "
-                            "fresh class with 1 or 2 thread-safe attributes and <= 3 instances; after every operation every "
+                            "fresh class with 1 or 2 thread-safe attributes (and on a base class + subclass pair) and <= 3 instances; after every operation every "
                             "attribute of every instance is read back; states = distinct per-instance value maps" % depth,
                     "samples": samples, "exhaustive": True}
     return res
